@@ -852,3 +852,45 @@ pub fn unlisted_ecall_family(rng: &mut Rng) -> Shape {
     p.lines.push(Line::Data(Data::Asciz("value?".into())));
     Shape { name: "ecall-not-in-the-analyzers-table", prog: p }
 }
+
+/// A conforming program whose frame is 4 KiB or more (C04): the size does not fit an `addi`, so it
+/// is built in a register with `lui` (+ `addi`) or `li`, subtracted from sp and added back.
+pub fn big_frame_family(rng: &mut Rng) -> Shape {
+    let mut p = Program::default();
+    let frame: i32 = *rng.pick(&[4096, 8192, 4112, 12288, 4096 + 2032, 65536]);
+    let load = |p: &mut Program, rd: Reg, k: i32, rng: &mut Rng| {
+        if rng.chance(0.3) {
+            p.push(Ins::li(rd, k));
+        } else {
+            let hi = (k.wrapping_add(0x800) as u32) >> 12;
+            let lo = k.wrapping_sub((hi << 12) as i32);
+            p.push(Ins::Lui { rd, imm: hi as i32 });
+            if lo != 0 {
+                p.push(Ins::addi(rd, rd, lo));
+            }
+        }
+    };
+    p.label("main");
+    p.push(Ins::li(A0, rng.range(1, 9) as i32));
+    p.push(Ins::call("work"));
+    p.push(Ins::li(A7, 1));
+    p.push(Ins::Ecall);
+    exit(&mut p);
+    p.label("work");
+    let t = *rng.pick(&[5u8, 6, 28]);
+    load(&mut p, t, frame, rng);
+    p.push(Ins::Alu { op: AluOp::Sub, rd: SP, rs1: SP, rs2: t });
+    p.push(Ins::sw(8, 0, SP));
+    p.push(Ins::sw(9, 4, SP));
+    p.push(Ins::addi(8, A0, 1));
+    p.push(Ins::Alu { op: AluOp::Add, rd: 9, rs1: 8, rs2: 8 });
+    p.push(Ins::sw(9, 8, SP));
+    p.push(Ins::lw(A0, 8, SP));
+    p.push(Ins::lw(9, 4, SP));
+    p.push(Ins::lw(8, 0, SP));
+    let t2 = *rng.pick(&[5u8, 6, 7]);
+    load(&mut p, t2, frame, rng);
+    p.push(Ins::Alu { op: AluOp::Add, rd: SP, rs1: SP, rs2: t2 });
+    p.push(Ins::ret());
+    Shape { name: "frame-of-4-KiB-or-more", prog: p }
+}
